@@ -29,7 +29,13 @@ def main():
         try:
             env = dict(os.environ, PYTHONPATH=wt, MPLBACKEND='Agg')
             rc0, _ = sh(['/venv/bin/python', os.path.join(d, 'demo.py')], cwd=wt, env=env)
-            rc, out = sh(['git', 'apply', os.path.join(d, 'patch.diff')], cwd=wt)
+            meta0 = json.load(open(os.path.join(d, 'meta.json'))) if os.path.exists(os.path.join(d, 'meta.json')) else {}
+            if meta0.get('apply') == 'c-patch':
+                rc, out = sh(f"patch -p0 core.c < {os.path.join(d, 'patch.diff')} && touch core.c", cwd=os.path.join(wt, 'regions', '_geometry'))
+                # the demo needs the rebuilt module: let the build step of ./check do it first
+                sh([os.path.join(ROOT, 'check'), 'C19', '--tier', 'quick'], cwd=ROOT, env=dict(os.environ, VERIF_REPO=wt, VERIF_EVID='/tmp/sweep_ev', VERIF_REPLAYS='/tmp/sweep_rp'), timeout=600)
+            else:
+                rc, out = sh(['git', 'apply', os.path.join(d, 'patch.diff')], cwd=wt)
             if rc != 0:
                 print(sid, 'patch does not apply to the current tree:', out[:200])
                 continue
